@@ -84,9 +84,37 @@ func ZZ_C17_getone() {
 	policy := zz.Fork("policy", 4) // 0: default, 1: ordered, 2: random, 3: most
 	ignoreZone := zz.Bool("ignoreZone")
 	pool, cloud, ids, view := zzWorld(n)
+	zzGetOneCheck(pool, cloud, ids, view, n, policy, ignoreZone, zzPolicyOpts(policy, ignoreZone))
+}
+
+// C17: options are per call.  An earlier selection (on any pool of the
+// process) with zone fallback and a non-default policy leaves no trace: a
+// later call without options, or with options that leave a field unset, is
+// zone-restricted and ordered again.
+func ZZ_C17_getone_history() {
+	// the earlier call: one cached candidate, arbitrary non-default options
+	prev := &SwitchPool{cache: cache.NewLRUExpireCache(4), ttl: time.Minute}
+	prev.Add(&Switch{ID: "vsw-prev", Zone: "z2", AvailableIPCount: 1})
+	_, _ = prev.GetOne(context.Background(), &zzVPC{sw: map[string]*zzSw{}}, "z1", []string{"vsw-prev"},
+		&SelectOptions{IgnoreZone: zz.Bool("prev.ignoreZone"), VSwitchSelectPolicy: SelectionPolicy(zz.OneOf("prev.policy", string(VSwitchSelectionPolicyMost), string(VSwitchSelectionPolicyRandom), string(VSwitchSelectionPolicyOrdered)))})
+	n := 2
+	pool, cloud, ids, view := zzWorld(n)
+	var opts []SelectOption
+	ignoreZone := false
+	switch zz.Fork("later.opts", 3) {
+	case 1:
+		opts = append(opts, &SelectOptions{}) // both fields unset
+	case 2:
+		ignoreZone = true
+		opts = append(opts, &SelectOptions{IgnoreZone: true}) // policy unset
+	}
+	zzGetOneCheck(pool, cloud, ids, view, n, 0, ignoreZone, opts)
+}
+
+func zzGetOneCheck(pool *SwitchPool, cloud *zzVPC, ids []string, view []*zzSw, n, policy int, ignoreZone bool, opts []SelectOption) {
 	zone := "z1"
 
-	got, err := pool.GetOne(context.Background(), cloud, zone, ids, zzPolicyOpts(policy, ignoreZone)...)
+	got, err := pool.GetOne(context.Background(), cloud, zone, ids, opts...)
 
 	// frame condition on the caller's slice
 	same := len(ids) == n
